@@ -171,6 +171,11 @@ FAITHFUL_CLASSES = (SIG_TRI, SIG_PER, SIG_N1)
 def rand_lower(rng, n, unit=False):
     L = np.zeros((n, n))
     for i in range(n):
+        if n > 10:          # large dimensions: banded and diagonally dominant, so that the condition number stays small
+            L[i, i] = rng.choice([1.0, 2.0, 1.5])
+            for j in range(max(0, i - 2), i):
+                L[i, j] = rng.choice([0, 0.25, -0.25, 0.5])
+            continue
         L[i, i] = 1.0 if unit else rng.choice([1.0, 2.0, 0.5, 1.5, -1.0, 4.0])
         for j in range(i):
             L[i, j] = rng.choice([0, 0, 1, -1, 0.5, -0.5, 2, 0.25])
@@ -1140,6 +1145,9 @@ def mhn_acceptance_oracle(dobj, a, b, g, q):
     sig_site = {"gamma": "_MHN_sample_gamma_proposal" if g > 0 else "_MHN_sample_negative_gamma", "normal": "_MHN_sample_normal_proposal"}[first[0]]
     if len(free) < 2:
         if all(la is None for _, la in rows):
+            rr = [ratio(t) for t, _ in rows]
+            if max(rr) - min(rr) <= 1e-6 * (1 + abs(rr[0])):
+                return None            # the proposal IS the target (e.g. alpha=1, gamma=0: half-normal): acceptance 1 is exact
             return ("MHN(%s,%s,%s): every proposal is accepted with probability 1 although target/proposal varies" % (a, b, g),
                     SIG_MHN_ACC if first[0] == "normal" else "ModifiedHalfNormal.%s|acceptance" % sig_site)
         return None
@@ -1323,7 +1331,7 @@ def known_witnesses(ctx):
     out = {}
     for sig, meta in WITNESSES.items():
         try:
-            detail = oracle(ctx, meta)
+            detail = oracle(ctx, dict(meta, verdict_only=True))
         except Exception as e:
             detail = "witness crashed: %s: %s" % (type(e).__name__, e)
         out[sig] = (bool(detail), detail or "witness no longer fails")
